@@ -1,5 +1,6 @@
 """Summaries of core/alloc/std callees over the value model. Each is part of the trusted base and is
 validated by per-path native replay. Keys are callee paths after strip_generics()."""
+import re
 import z3
 from .values import *
 from .interp import ptr_eq, _and, _or
@@ -617,7 +618,14 @@ def _(I, o, d): return d if o.idx == 0 else o.f[0]
 def _(I, o, f): return I.call_closure(f, Agg([], "tuple")) if o.idx == 0 else o.f[0]
 @summary("Option::unwrap_or_default")
 def _(I, o):
-    if o.idx == 0: raise Unsupported("unwrap_or_default")
+    if o.idx == 0:
+        m = re.search(r"Option::<(.+)>::unwrap_or_default$", getattr(I, "cur_callee", "") or "")
+        t = m.group(1) if m else "?"
+        if t in ("String", "alloc::string::String", "std::string::String"): return VecObj([], "String")
+        if t.startswith(("Vec<", "alloc::vec::Vec<", "std::vec::Vec<")): return VecObj([])
+        if t in INT_W: return 0
+        if t == "bool": return False
+        raise Unsupported("unwrap_or_default of " + t)
     return o.f[0]
 @summary("Option::expect")
 def _(I, o, msg):
@@ -854,8 +862,20 @@ def _(I, v):
 
 
 # ------------------------------------------------------------------ atomics (statics are named by their type)
-@summary("Atomic::load", "AtomicUsize::load", "AtomicBool::load", "core::sync::atomic::Atomic::load")
+@summary("std::sync::atomic::Atomic::new", "Atomic::new", "AtomicUsize::new", "AtomicBool::new", "AtomicU32::new", "AtomicU64::new", "core::sync::atomic::Atomic::new", "Cell::new", "core::cell::Cell::new")
+def _(I, v): return Agg([v], "Atomic")
+def _atomic_place(I, p):
+    """a non-static atomic / Cell: a one-field aggregate living where the pointer points (single-threaded execution)"""
+    u = unwrap_ptr(p)
+    if type(u) is Ptr:
+        try: v = I.read(u.cell, u.path)
+        except Exception: return None
+        if type(v) is Agg and v.ty == "Atomic": return v
+    return None
+@summary("std::sync::atomic::Atomic::load", "Atomic::load", "AtomicUsize::load", "AtomicBool::load", "core::sync::atomic::Atomic::load", "AtomicU32::load", "AtomicU64::load")
 def _(I, p, order):
+    a = _atomic_place(I, p)
+    if a is not None: return a.f[0]
     u = unwrap_ptr(p)
     tag = u.cell.v
     if isinstance(tag, tuple) and tag[0] == "static":
@@ -864,8 +884,21 @@ def _(I, p, order):
         if "usize" in key: return I.W.globals.get("CALL_LIMIT", 0)
         if "bool" in key: return I.W.globals.get("ERROR_DETAIL", False)
     raise Unsupported(f"atomic load of {tag!r}")
-@summary("Atomic::store", "AtomicUsize::store", "AtomicBool::store")
+@summary("Cell::get", "core::cell::Cell::get")
+def _(I, p):
+    a = _atomic_place(I, p)
+    if a is None: raise Unsupported("Cell::get")
+    return clone_val(a.f[0])
+@summary("Cell::set", "core::cell::Cell::set")
+def _(I, p, v):
+    a = _atomic_place(I, p)
+    if a is None: raise Unsupported("Cell::set")
+    a.f[0] = v; return UNIT
+@summary("std::sync::atomic::Atomic::store", "core::sync::atomic::Atomic::store", "Atomic::store", "AtomicUsize::store", "AtomicBool::store", "AtomicU32::store", "AtomicU64::store")
 def _(I, p, v, order):
+    a = _atomic_place(I, p)
+    if a is not None:
+        a.f[0] = v; return UNIT
     u = unwrap_ptr(p); tag = u.cell.v
     if isinstance(tag, tuple) and tag[0] == "static":
         I.W.globals["CALL_LIMIT" if "usize" in tag[1] else "ERROR_DETAIL"] = v
@@ -989,6 +1022,13 @@ def _panic(kind):
         for x in a:
             if type(x) is SliceRef and x.is_str and all(isinstance(b, int) for b in x.items()):
                 msg = bytes(x.items()).decode(errors="replace"); break
+            if type(x) is Agg and x.ty in ("FmtArguments", "FmtArgumentsStr"):
+                try:
+                    from .summaries_fmt import format_bytes
+                    bs = format_bytes(I, x)
+                    msg = bytes(b if isinstance(b, int) else 63 for b in bs).decode(errors="replace"); break
+                except (Unsupported, Panic):
+                    msg = "<message not rendered>"; break
         raise Panic(f"{kind}: {msg}" if msg else kind, kind)
     return f
 
